@@ -75,7 +75,7 @@ func (e *Env) runJob(j *Job) {
 	sc.Buffer(make([]byte, 1<<20), 1<<28)
 	for sc.Scan() {
 		line := sc.Bytes()
-		if len(line) == 0 || line[0] != '{' {
+		if len(line) == 0 || line[0] != '{' || bytes.HasPrefix(line, []byte(`{"start"`)) {
 			continue
 		}
 		var r kernel.Result
